@@ -41,6 +41,9 @@ type scenario struct {
 	Broken   ref.RuleSet // rules the offending frame breaks (empty for a pure size case)
 	TooLarge bool        // offending frame exceeds Limit
 	Limit    int64       // Reader.MaxFrameSize (0 = none)
+	// SkipCheck: Reader.SkipHeaderCheck (only with streams whose sole offence is a frame's size: the
+	// size limit does not depend on the header check being on).
+	SkipCheck bool
 	Side     ref.Side
 	Extended bool
 	Chunks   []int
@@ -118,7 +121,7 @@ func (s scenario) state() ws.State {
 func (s scenario) describe() interface{} {
 	return map[string]interface{}{
 		"entry": s.Entry, "side": s.Side.String(), "extended": s.Extended, "limit": s.Limit, "bad_index": s.Bad,
-		"broken": s.Broken.String(), "too_large": s.TooLarge, "chunks": s.Chunks, "bufsize": s.BufSize, "frames": ref.Describe(s.Frames), "attach_ext": s.AttachExt, "offending_frame_announces": s.Announce, "stall_at_frame_starts": s.Stalls, "exact_len_consumer": s.ExactLen, "eof_with_data": s.EOFData,
+		"broken": s.Broken.String(), "too_large": s.TooLarge, "skip_header_check": s.SkipCheck, "chunks": s.Chunks, "bufsize": s.BufSize, "frames": ref.Describe(s.Frames), "attach_ext": s.AttachExt, "offending_frame_announces": s.Announce, "stall_at_frame_starts": s.Stalls, "exact_len_consumer": s.ExactLen, "eof_with_data": s.EOFData,
 	}
 }
 
@@ -213,7 +216,7 @@ func runReader(s scenario) error {
 	os := openStart(valid)
 	evs := ref.Events(valid[:os])
 	var ictl [][]byte
-	rd := &wsutil.Reader{Source: src, State: s.state(), MaxFrameSize: s.Limit, Extensions: s.exts()}
+	rd := &wsutil.Reader{Source: src, State: s.state(), MaxFrameSize: s.Limit, Extensions: s.exts(), SkipHeaderCheck: s.SkipCheck}
 	nextFrame := func() (ws.Header, error) {
 		for tries := 0; ; tries++ {
 			h, err := rd.NextFrame()
@@ -777,6 +780,10 @@ func TestSizeLimit(t *testing.T) {
 		}
 		s.Chunks = gen.Chunks(t, "chunks")
 		s.BufSize = rapid.SampledFrom([]int{0, 1, 3, 64}).Draw(t, "bufsize")
+		s.SkipCheck = rapid.IntRange(0, 2).Draw(t, "skipHeaderCheck") == 0
+		if s.SkipCheck {
+			hx.Class("Reader/size-limit-with-SkipHeaderCheck")
+		}
 		hx.Eval()
 		note(s)
 		if err := run(s); err != nil {
